@@ -311,3 +311,8 @@ def run(chk):
         ex = explore(kind)
         handler_preamble(chk, ex, FUNCS[kind])
         hobl.c17_user_logger_gated(chk, ex)
+    # the replay tracker decides "under a completed context" from the parent links of the RECORDS: every update must report the parent it has
+    for kind in ("step", "wfc", "child", "wait", "invoke", "callback"):
+        ex = explore(kind)
+        handler_preamble(chk, ex, FUNCS[kind])
+        hobl.ids_passthrough(chk, ex, "C17")
